@@ -26,6 +26,29 @@ def cleanup_age(fn):
     return ages[0]
 
 
+def dumps_options(s2j, j2s):
+    """How `state_to_json` / `json_to_state` call the json module: the options decide which values can be written at all
+    (`allow_nan`) and whether the text read back is the text written (`sort_keys`, `default`, `parse_float`, ...).
+    Only `indent` (layout) and a constant `allow_nan` are understood; anything else is a shape the model does not have."""
+    dumps = [n for n in ast.walk(s2j) if isinstance(n, ast.Call) and isinstance(n.func, ast.Attribute) and n.func.attr == "dumps"]
+    loads = [n for n in ast.walk(j2s) if isinstance(n, ast.Call) and isinstance(n.func, ast.Attribute) and n.func.attr == "loads"]
+    if len(dumps) != 1 or len(loads) != 1:
+        raise TieBroken(f"state_to_json/json_to_state: expected exactly one json.dumps and one json.loads call, found {len(dumps)}/{len(loads)}")
+    allow_nan = True
+    for kw in dumps[0].keywords:
+        if kw.arg == "indent":
+            continue
+        if kw.arg == "allow_nan" and isinstance(kw.value, ast.Constant) and isinstance(kw.value.value, bool):
+            allow_nan = kw.value.value
+            continue
+        raise TieBroken(f"state_to_json: json.dumps is called with an option the model does not know: {kw.arg}")
+    if len(dumps[0].args) != 1:
+        raise TieBroken("state_to_json: json.dumps is called with positional options")
+    if loads[0].keywords or len(loads[0].args) != 1:
+        raise TieBroken("json_to_state: json.loads is called with options the model does not know")
+    return allow_nan
+
+
 def lean_bool(b):
     return "true" if b else "false"
 
@@ -64,6 +87,7 @@ def run():
     enc, dec = find_def(ser_tree, "encode_to_dict"), find_def(ser_tree, "decode_from_dict")
     s2j, j2s = find_def(ser_tree, "state_to_json"), find_def(ser_tree, "json_to_state")
     names, dcs, enums, spec_values, cmp_ops = tables()
+    allow_nan = dumps_options(s2j, j2s)
     dc_l = lean_list([
         "(" + lean_str(n) + ", " + lean_list(["(" + lean_str(f) + ", " + lean_bool(i) + ", " + lean_bool(d) + ")" for f, i, d in fs]) + ")"
         for n, fs in dcs])
@@ -85,6 +109,10 @@ def specTypeValues : List String := {lean_list([lean_str(v) for v in spec_values
 /-- keys of `eval.COMPARISON_OPERATORS` (empty when the serializer cannot re-create comparison expressions). -/
 def comparisonOps : List String := {lean_list([lean_str(v) for v in cmp_ops])}
 
+/-- the `allow_nan` argument of the `json.dumps` call in `state_to_json` (CPython's default `True` when absent):
+    `False` makes `json.dumps` raise `ValueError` on `nan`/`inf`/`-inf`. -/
+def dumpsAllowNan : Bool := {lean_bool(allow_nan)}
+
 /-- `timedelta(seconds=…)` in `_clean_up_state`. -/
 def cleanUpAgeSeconds : Nat := {age}
 
@@ -96,5 +124,5 @@ end NemoVerif.Generated.C11
             "encode_to_dict": fingerprint(enc), "decode_from_dict": fingerprint(dec),
             "state_to_json": fingerprint(s2j), "json_to_state": fingerprint(j2s), "_clean_up_state": fingerprint(fn),
         },
-        "classes": len(names), "dataclasses": len(dcs), "enums": len(enums), "cleanup_age_s": age, "comparison_ops": cmp_ops,
+        "classes": len(names), "dataclasses": len(dcs), "enums": len(enums), "cleanup_age_s": age, "comparison_ops": cmp_ops, "dumps_allow_nan": allow_nan,
     }
